@@ -123,4 +123,96 @@ CHECKS = {
                              "grouped_unknown_word_next_to_space", "ignore_space_rejected_without_SPACE", "connector_matrix", "connector_raw", "connector_dual"],
         "assumptions": [],
     },
+    "C05": {
+        "stages": [
+            st("main", "rel", [300, 6000], [30, 400]),
+            st("avx2", "avx2", [60, 250], [30, 400]),
+            st("back", "rel", [60, 250], [30, 400]),
+            st("dbgassert", "relda", [60, 1000], [20, 200], shards=8),
+            st("asan", "asan", [0, 300], [0, 300], thorough_only=True, shards=8),
+        ],
+        "rule": "case = generated dictionary (matrix/raw/dual, optional user lexicon, optional id mapping) + 0-3 later operations "
+                "(load/replace/clear user lexicon, map, write/read) + 10 sentences x 1-2 option settings; oracles: write's return value = bytes "
+                "emitted, read(write(D)) succeeds, write(read(write(D))) is byte-identical, all id pairs of the connector agree, tokens agree, "
+                "and all of this again after every later operation applied to both; a writer failing after k bytes yields Err and a prefix; "
+                "the AVX2 stage reads the images written by the portable stage (and a second portable stage those written by the AVX2 "
+                "stage): readable, re-written byte-identically, token-for-token the same results. Distinct = hash of (image, later operations).",
+        "required_buckets": ["connector_matrix", "connector_raw", "connector_dual", "with_user_lexicon", "with_id_mapping", "later_load_user",
+                             "later_clear", "later_map", "later_write_read", "failing_writer_yields_err_and_prefix",
+                             "foreign_image_read_rewritten_and_tokenized_identically"],
+        "assumptions": ["images are compared between a portable and an AVX2 build made by the same compiler on this machine"],
+    },
+    "C07": {
+        "stages": [
+            st("main", "rel", [600, 15000], [30, 400]),
+            st("avx2", "avx2", [600, 15000], [30, 400]),
+            st("dbgassert", "relda", [100, 2000], [20, 200], shards=8),
+            st("miri", "miri", [25, 200], [240, 900], shards=4, watchdog_factor=3),
+            st("miri-avx2", "miri-avx2", [25, 200], [240, 900], shards=4, watchdog_factor=3),
+            st("valgrind", "avx2", [0, 60], [0, 600], thorough_only=True, shards=8, watchdog_factor=6,
+               wrap=["valgrind", "--error-exitcode=97", "--quiet"]),
+            st("asan", "asan", [0, 600], [0, 300], thorough_only=True, shards=8),
+        ],
+        "rule": "model level: random bigram models (1-20 templates incl. <8, 8, 9, 16, 19; ragged rows; strings shared across positions and "
+                "sides; quoted cells; entries for the empty feature on one or both sides; |cost| <= 32767/K so every partial sum fits i16) -> raw "
+                "and dual dictionaries; every id pair incl. row/column 0 is compared with the defining sum, read black-box through two-token "
+                "probe sentences, and raw/dual/materialised-matrix tokenize identically. scorer level: all key sets of size <= 3 (+ sampled "
+                "size 4) over a 5x5 key universe and random large sparse sets; every probe pair incl. never-inserted keys, 0 and the padding id, "
+                "8 per call, plus 16/24-lane rows. Portable and AVX2 builds run the same seeds; Miri interprets the scorer in both. "
+                "Distinct = hash of the model / key set.",
+        "required_buckets": ["templates_lt8", "templates_eq8", "templates_gt8_not_multiple", "templates_multiple_of_8", "ragged_rows",
+                             "cost_entry_for_empty_empty", "cost_entry_with_one_empty_side", "quoted_feature_cells",
+                             "cell_read_through_probe_sentence", "scorer_small_scope_enumerated", "scorer_random_key_sets"],
+        "assumptions": ["bigram.cost never names the feature '*' and feature strings contain no '/' or tab (the file format cannot express them)",
+                        "the generator bounds costs so that the dual connector's stated precondition (pre-summed part fits 16 bits) always holds"],
+    },
+    "C09": {
+        "stages": [
+            st("main", "rel", [3, 9], [240, 900], watchdog_factor=2),
+            st("avx2", "avx2", [0, 6], [0, 900], thorough_only=True, watchdog_factor=2),
+            st("asan", "asan", [0, 3], [0, 600], thorough_only=True, watchdog_factor=2),
+        ],
+        "rule": "fault enumeration: for one image per connector kind (matrix, raw, dual; thorough adds images with user lexicon + id mapping "
+                "and the AVX2 build) EVERY strict prefix length k in 0..len is fed to Dictionary::read (lengths split over 16 shards): Err "
+                "required, a panic or Ok is a violation. Plus: the full image and 60 prefixes through readers delivering 1 byte / random chunks / "
+                "spurious Interrupted; a hard I/O error at a random offset; a writer failing after k bytes (Err + strict prefix); all 21x255 "
+                "single-byte corruptions of the magic, every shorter header, older/foreign headers. ASan (thorough) re-runs a stride sample. "
+                "Distinct = (image, shard residue class).",
+        "required_buckets": ["every_prefix_of_image_enumerated", "image_matrix_connector", "image_raw_connector", "image_dual_connector",
+                             "all_single_byte_header_corruptions", "reader_1_byte_per_call_ok", "reader_spurious_interrupted_ok",
+                             "io_error_surfaced_as_err", "interrupted_write_is_err_and_strict_prefix"],
+        "exhaustive_bucket": "every_prefix_of_image_enumerated",
+        "exhaustive_scope": "all strict prefixes (truncation points) of the images enumerated in this run; the images themselves are sampled",
+        "assumptions": ["arbitrary corruption (as opposed to truncation and a foreign header) is outside C09"],
+    },
+    "C11": {
+        "stages": [
+            st("main", "rel", [4000, 100000], [25, 400]),
+            st("dbgassert", "relda", [800, 10000], [20, 200], shards=8),
+        ],
+        "rule": "random lexicon CSVs (system and user side): surfaces with commas, quotes, spaces, 1-4-byte text, duplicates and prefixes of "
+                "others, empty surfaces; random per-field quoting; feature text from empty to 40 columns with quoted cells, doubled quotes and "
+                "empty cells; blank lines; with/without final newline. Oracles from the generator's rows (never from parsing the text): "
+                "word_feature(i) byte for byte in row order, no extra word, and for every distinct surface the lattice nodes at position 0 = "
+                "the rows with that surface (row index, ids, cost). Distinct = hash of the CSV text.",
+        "required_buckets": ["homographs", "empty_surface_row_skipped", "no_final_newline", "file_ends_after_fourth_comma",
+                             "surface_with_comma_or_quote", "quoted_feature_cell", "empty_feature", "system_lexicon", "user_lexicon"],
+        "assumptions": ["well-formed = \\n line ends, no BOM, no NUL, no line break inside a quoted cell, fields < 4096 bytes",
+                        "a lexicon in which no row has a surface may be rejected with an error"],
+    },
+    "C13": {
+        "stages": [
+            st("main", "rel", [1500, 30000], [25, 400]),
+            st("dbgassert", "relda", [300, 5000], [20, 200], shards=8),
+        ],
+        "rule": "case = generated dictionary + a history of 0-14 lines (empty lines, empty first line, repeated lines, trailing spaces under "
+                "ignore_space) fed to reset_sentence/tokenize/update_connid_counts on one worker; oracles: both id lists are permutations of "
+                "1..n-1, ordered by (frequency desc, id asc) where frequency is an independent recount of connection-cost evaluations on the "
+                "reference lattice, probability = count/total with the same float expression, the CostEval event log is cross-checked against "
+                "the recount, the listed order is accepted by map_connection_ids_from_iter and the mapped dictionary tokenizes identically. "
+                "Distinct = hash of (dictionary, history).",
+        "required_buckets": ["empty_line_in_history", "empty_first_line", "no_line_at_all", "repeated_line", "trailing_spaces_with_ignore_space",
+                             "frequency_ties", "reorder_output_accepted_by_map", "cost_eval_events_equal_recount"],
+        "assumptions": ["with ignore_space the histories use dictionaries meeting C12's precondition (where the skip rule is unambiguous)"],
+    },
 }
